@@ -281,6 +281,16 @@ def _run(ctx, st):
             j += 1
             if ctx.mine(j):
                 classify(f.replace("%s", q), st, ctx, "hostile-argument")
+    # (5d) literal tokens the lexer's patterns accept although they denote nothing (or twice)
+    oddlits = ["12:30::45", "12:30::45.5", "2021-02-30", "2021-00-00", "0000-01-01", "2021-02-30T10:00:00",
+               "2021-04-31T05:00:07Z", "23:59:59.999999999999", "duration'P'", "duration'PT'", "duration'P1DT'",
+               "duration'P99999999999D'", "duration'PT0.0000000000001S'", "1e999", "-1e999", "1e-999", "0e0",
+               "00000000-0000-0000-0000-000000000000", "2021-01-01T10:00+23:59", "2021-01-01T10:00-23:59"]
+    for k, lit in enumerate(oddlits):
+        if ctx.mine(k):
+            for v in (lit, "a eq " + lit, lit + " eq a", "a in (" + lit + ", " + lit + ")", "f.g(" + lit + ")",
+                      "not (a lt " + lit + ")", "x/any(y: y eq " + lit + ")", "- " + lit):
+                classify(v, st, ctx, "odd-literal")
     # (5b) constructs of the OData ABNF the library does not implement
     from .c20 import ABNF_UNSUPPORTED
     for k, text in enumerate(ABNF_UNSUPPORTED):
